@@ -271,8 +271,17 @@ Definition run_build (detected : bool) (c : cfg) (a : ana) (s : fs) : fs * outco
     if negb ok then (s1, Failed)
     else let '(s2, ok2) := finalize_generation (c_out c) files s1 in (s2, if ok2 then BuildOk else Failed).
 
+(* ---- library entry: generate_from_config (interface/mod.rs:221). Validation, analysis,
+   the generator's writes; no cache record, no visualisation, no cleanup. *)
+Definition run_api (c : cfg) (a : ana) (s : fs) : fs * outcome :=
+  if negb (c_lib_ok c) then (s, Failed)
+  else if negb (exists_b s (c_proj c)) then (s, Failed)
+  else if negb (a_ok a) then (s, Failed)
+  else if negb (a_cmds a) then (s, NoCommands)
+  else let '(s', ok) := seq (writer_plan (c_out c) a) s in (s', if ok then Regenerated else Failed).
+
 (* ---- a run, a history *)
-Inductive entry := Generate | Init (i : initp) | Build (detected : bool).
+Inductive entry := Generate | Init (i : initp) | Build (detected : bool) | Api.
 Record run := { r_entry : entry; r_cfg : cfg; r_ana : ana }.
 
 Definition exec (r : run) (s : fs) : fs * outcome :=
@@ -280,6 +289,7 @@ Definition exec (r : run) (s : fs) : fs * outcome :=
   | Generate => run_generate (r_cfg r) (r_ana r) s
   | Init i => run_init i (r_cfg r) (r_ana r) s
   | Build d => run_build d (r_cfg r) (r_ana r) s
+  | Api => run_api (r_cfg r) (r_ana r) s
   end.
 
 Definition fs_after (runs : list run) (s : fs) : fs := fold_left (fun acc r => fst (exec r acc)) runs s.
